@@ -82,12 +82,9 @@ func validateDecimal64String(s string, fractionDigitsAllowed int) error {
 
 	sSplit := strings.Split(s, ".")
 	if len(sSplit) == 1 {
-		_, err := strconv.ParseInt(sSplit[0], 10, 64)
-		if err != nil {
-			return newValidateDecimal64Error(
-				fmt.Sprintf("Error parsing digits: %s", err))
-		}
-		return nil
+		// An integer literal has to fit the range of the type as well:
+		// check it like "<digits>.0".
+		sSplit = append(sSplit, "0")
 	}
 	if len(sSplit) > 2 {
 		return newValidateDecimal64Error(errorStringExcessDecimalPoint)
@@ -95,6 +92,11 @@ func validateDecimal64String(s string, fractionDigitsAllowed int) error {
 
 	if len(sSplit[0]) == 0 || len(sSplit[1]) == 0 {
 		return newValidateDecimal64Error(errorStringMissingDigits)
+	}
+
+	if sSplit[1][0] == '+' || sSplit[1][0] == '-' {
+		// strconv.ParseInt below would accept a sign in the fraction
+		return newValidateDecimal64Error(errorStringSign)
 	}
 
 	fractionDigitsActual := len(sSplit[1])
